@@ -16,9 +16,10 @@ Two layers, mirroring the real stack:
 `Unsupported` (SQL outside the minisql subset) is never converted: it propagates so that the run fails closed.
 
 Overlapping requests (history op "race", see race.py): while `FakeDatabase.race` is set, a connection opened by one of the two
-racing handler tasks carries its `party`; every statement of such a connection passes `race.before` (pause point of the first
-request, table-granular lock check against the other party -- possibly suspending this task until the other one finished --,
-snapshot for consistent reads) and `race.after`; the end of a transaction releases the party's locks (`race.end_tx`).
+racing handler tasks carries its `party`; every statement of such a connection is executed through `race.execute` in a worker
+thread (pause point of the first request, table-granular lock check against the other party -- possibly parking the thread until
+the other one finished --, snapshot for consistent reads; for a CALL the same gate runs before every statement of the procedure
+body, `engine.stmt_hook`); the end of a transaction releases the party's locks (`race.end_tx`).
 Connections without a party (every ordinary op) never touch that code.
 """
 import re
@@ -90,11 +91,8 @@ class FakeCursor:
         race = self._conn._db.race
         if race is None or self._conn.party is None:
             return self._run(sql, args)
-        token = await race.before(self._conn, sql, args)
-        try:
-            return self._run(sql, args)
-        finally:
-            race.after(self._conn, token)
+        # gate + execution in a worker thread of the race: the statement (or, for a CALL, a statement of the procedure body) may park there
+        return await race.execute(self._conn, sql, args, self._run)
 
     async def execute(self, sql, args=None):
         r = await self._gated(sql, args)
@@ -163,6 +161,7 @@ class FakeConnection:
         if db.race is not None:
             from batchdb.race import PARTY
             self.party = PARTY.get()
+            self._sess.race_party = self.party      # read by race.RaceControl.inner (statements of procedure bodies)
 
     def cursor(self):
         return FakeCursor(self)
